@@ -36,6 +36,33 @@ func main() {
 		sort.Strings(ids)
 		fmt.Println(strings.Join(ids, " "))
 		return
+	case "buckets":
+		p, err := Load(nil, nil)
+		if err != nil {
+			fmt.Fprintln(os.Stderr, err)
+			os.Exit(2)
+		}
+		for _, w := range p.BucketWrites() {
+			fmt.Printf("%-40s %-30s %-50s %s callers=%v\n", w.Bucket, w.Op, FnName(w.Fn), p.Pos(w.Site.Pos()), p.CallerNames(w.Fn))
+		}
+		return
+	case "stores":
+		p, err := Load(nil, nil)
+		if err != nil {
+			fmt.Fprintln(os.Stderr, err)
+			os.Exit(2)
+		}
+		for _, ref := range os.Args[2:] {
+			fn := p.Fn(ref)
+			if fn == nil {
+				fmt.Println("UNRESOLVED", ref)
+				continue
+			}
+			for _, s := range p.Facts(fn).StoreFacts() {
+				fmt.Printf("%s: %s\n", p.Pos(s.In.Pos()), s.S)
+			}
+		}
+		return
 	case "dump":
 		p, err := Load(nil, nil)
 		if err != nil {
